@@ -4,6 +4,7 @@
 use crate::gen_alias;
 use crate::gen_dict;
 use crate::gen_fault;
+use crate::gen_stream;
 use crate::rng::{mix3, tag};
 use crate::run::*;
 use serde::{Deserialize, Serialize};
@@ -34,6 +35,14 @@ pub fn generate(profile: &str, seed: u64, index: u64) -> Generated {
         }
         "dict" => {
             let o = gen_dict::generate(seed, fault_free);
+            Generated {
+                script: o.script,
+                kinds: o.kinds,
+                nontrivial: o.nontrivial,
+            }
+        }
+        "stream" => {
+            let o = gen_stream::generate(seed, fault_free);
             Generated {
                 script: o.script,
                 kinds: o.kinds,
@@ -355,6 +364,7 @@ pub fn profiles_for(property: &str, tier: &str) -> Vec<(&'static str, u64)> {
     match property {
         "C01" => vec![("alias", if thorough { 3_000_000 } else { 200_000 })],
         "C09" => vec![("dict", if thorough { 3_000_000 } else { 200_000 })],
+        "C11" => vec![("stream", if thorough { 3_000_000 } else { 200_000 })],
         "C14" => {
             if thorough {
                 vec![
